@@ -87,6 +87,28 @@ func c12MakeJob(c *fw.Ctx, r *fw.Rng, kind, idx int) c12Job {
 			exec: func(t int) (string, error) { return run.ToMultiAlign(sf.Text, wrap, -1, -1, pad, t) }}
 	case 1:
 		sf := samManyQueries(r, nrec, false)
+		// make some query names collide after the writer's file-name sanitising ('/' -> '_'):
+		// the later query must then deterministically overwrite the earlier one's file
+		for j := 1; j < len(sf.Queries); j++ {
+			if !r.Chance(0.15) {
+				continue
+			}
+			prev, cur := sf.Queries[j-1].Name, sf.Queries[j].Name
+			var twin string
+			switch {
+			case strings.Contains(prev, "/"):
+				twin = strings.Replace(prev, "/", "_", 1)
+			case strings.Contains(prev, "_"):
+				twin = strings.Replace(prev, "_", "/", 1)
+			default:
+				continue
+			}
+			if strings.Contains(sf.Text, twin+"\t") {
+				continue
+			}
+			sf.Text = strings.ReplaceAll(sf.Text, "\n"+cur+"\t", "\n"+twin+"\t")
+			sf.Queries[j].Name = twin
+		}
 		ref := gen.RefFasta(sf.RefName, sf.Ref, 0)
 		dir := filepath.Join(c.Tmp, fmt.Sprintf("c12-%d", idx))
 		return c12Job{name: "sam toPairAlign (directory)", threads: true, files: map[string]string{"in.sam": sf.Text, "ref.fasta": ref},
